@@ -66,6 +66,7 @@ struct Registry {
   NodeSt nodes[MAXN];
   int n_nodes = 0;
   int guard[vrt::MAXT][MAXG + 2]; // node id + 1 registered for (thread, guard variable); 0 = none
+  bool via_copy[vrt::MAXT][MAXG + 2]; // the registered protection was established by copying another guard
   bool in_guard_op[vrt::MAXT];
   bool thread_exited_with_pending = false;
   bool adopted_while_others_live = false;
@@ -91,7 +92,9 @@ void note_destroy(int id, int deleter_id, const char* how) {
   for (int t = 0; t < vrt::MAXT; ++t)
     for (int g = 0; g < MAXG + 2; ++g)
       if (R.guard[t][g] == id + 1)
-        vrt::fail("destroyed_while_guarded", "object %d destroyed (%s) by thread %d while guard %d of thread %d protects it", id, how, me, g, t);
+        vrt::fail(R.via_copy[t][g] ? "destroyed_while_guarded_by_copy" : "destroyed_while_guarded",
+                  "object %d destroyed (%s) by thread %d while guard %d of thread %d protects it%s", id, how, me, g, t,
+                  R.via_copy[t][g] ? " (a guard that was copied from another guard)" : "");
   for (int t = 0; t < vrt::MAXT; ++t) {
     if (t == me) continue;
     if (R.in_guard_op[t]) R.deleter_under_guard = true;
@@ -225,6 +228,18 @@ struct Client {
   static void reg(int g, const GPtr& gp) {
     int me = vrt::self();
     R.guard[me][g] = gp.get() ? gp.get()->id + 1 : 0;
+    R.via_copy[me][g] = false;
+  }
+  static void reg_copy(int g, const GPtr& gp, int from) { // protection copied or moved from guard variable `from`
+    int me = vrt::self();
+    bool c = from < 0 ? true : R.via_copy[me][from];
+    reg(g, gp);
+    R.via_copy[me][g] = c && gp.get() != nullptr;
+  }
+  static void swap_reg(int a, int b) {
+    int me = vrt::self();
+    std::swap(R.guard[me][a], R.guard[me][b]);
+    std::swap(R.via_copy[me][a], R.via_copy[me][b]);
   }
   static void unreg(int g) { R.guard[vrt::self()][g] = 0; }
 
@@ -389,7 +404,8 @@ struct Client {
             OpScope os;
             unreg(op.b);
             g[op.b] = g[op.a];
-            reg(op.b, g[op.b]);
+            if (op.a != op.b) reg_copy(op.b, g[op.b], -1);
+            else reg_copy(op.b, g[op.b], op.b);
           }
           vrt::op_end();
           gm[op.b] = gm[op.a];
@@ -400,7 +416,7 @@ struct Client {
           auto& ref = g[op.a];
           g[op.a] = ref;
           if (op.c) g[op.a] = std::move(ref);
-          reg(op.a, g[op.a]);
+          reg_copy(op.a, g[op.a], op.a);
           break;
         }
         case OP_MOVE: {
@@ -410,7 +426,7 @@ struct Client {
             if (op.a != op.b) {
               unreg(op.b);
               g[op.b] = std::move(g[op.a]);
-              reg(op.b, g[op.b]);
+              reg_copy(op.b, g[op.b], op.a);
               if (g[op.a].get() != nullptr) vrt::fail("move_leaves_source", "moved-from guard is not empty");
               unreg(op.a);
               gm[op.b] = gm[op.a];
@@ -424,9 +440,7 @@ struct Client {
           OpScope os;
           if (op.a != op.b) {
             g[op.a].swap(g[op.b]);
-            int x = R.guard[me][op.a];
-            R.guard[me][op.a] = R.guard[me][op.b];
-            R.guard[me][op.b] = x;
+            swap_reg(op.a, op.b);
             std::swap(gm[op.a], gm[op.b]);
           }
           break;
@@ -446,12 +460,10 @@ struct Client {
         case OP_COPYCTOR: {
           OpScope os;
           GPtr t(g[op.a]);
-          reg(NG, t);
+          reg_copy(NG, t, -1);
           if (op.a != op.b) {
             t.swap(g[op.b]);
-            int x = R.guard[me][NG];
-            R.guard[me][NG] = R.guard[me][op.b];
-            R.guard[me][op.b] = x;
+            swap_reg(NG, op.b);
           }
           unreg(NG); // t is released at the end of this scope
           gm[op.b] = gm[op.a];
@@ -465,12 +477,10 @@ struct Client {
               {
                 GPtr t(std::move(g[op.a]));
                 if (g[op.a].get() != nullptr) vrt::fail("move_leaves_source", "guard is not empty after another guard has been move-constructed from it");
-                reg(NG, t);
+                reg_copy(NG, t, op.a);
                 unreg(op.a);
                 t.swap(g[op.b]);
-                int x = R.guard[me][NG];
-                R.guard[me][NG] = R.guard[me][op.b];
-                R.guard[me][op.b] = x;
+                swap_reg(NG, op.b);
                 unreg(NG); // t (the previous content of the target) is released at the end of this scope
               }
               gm[op.b] = gm[op.a];
